@@ -18,8 +18,10 @@ import (
 // each is printed and replayed: verdict/code, Example() keys, OpenAPI property listing, InheritedFrom.
 
 type aoKey struct {
-	K   string `json:"k"`
-	Opt bool   `json:"opt"`
+	K   string   `json:"k"`
+	Opt bool     `json:"opt"`
+	Sub []string `json:"sub,omitempty"` // own key whose value is { // {allOf: "@x"} "n": 0 }
+	NK  []string `json:"nk,omitempty"`  // merged key names of that nested heir
 }
 type aoDef struct {
 	Kind  string   `json:"kind"`
@@ -39,6 +41,7 @@ type aoCase struct {
 		Via    string `json:"via"`
 		Origin string `json:"origin"`
 	} `json:"origin"`
+	Warm []string `json:"warm,omitempty"` // call prefix (SchemaApi_orders) after which the assertions are repeated
 }
 
 var aoCodes = map[string]int{"missing": 1302, "nonobject": 704, "cycle": 703, "duplicate": 402, "apconflict": 705}
@@ -81,6 +84,14 @@ func aoText(d aoDef, keyVal map[string]string) string {
 		if k.Opt {
 			opt = " // {optional: true}"
 		}
+		if len(k.Sub) > 0 {
+			rules := `allOf: "@` + k.Sub[0] + `"`
+			if k.Opt {
+				rules += ", optional: true"
+			}
+			fmt.Fprintf(&sb, "  \"%s\": { // {%s}\n    \"n\": 0\n  }%s\n", k.K, rules, sep)
+			continue
+		}
 		fmt.Fprintf(&sb, "  \"%s\": %s%s%s\n", k.K, keyVal[k.K], sep, opt)
 	}
 	sb.WriteString("}")
@@ -122,7 +133,20 @@ func aoClass(cs aoCase, what string) string {
 	return fmt.Sprintf("allof:%s:expected-%s:%s:ap-%s", what, strings.Join(r, "+"), shape, strings.Join(ap, "+"))
 }
 
+// aoEval judges the project on a fresh object and on one that has already answered cs.Warm.
 func aoEval(cs aoCase) []core.Finding {
+	fs := aoEvalAfter(cs, nil)
+	if len(cs.Warm) > 0 {
+		for _, f := range aoEvalAfter(cs, cs.Warm) {
+			f.Class += ":after-other-calls"
+			f.What = "after the calls " + strings.Join(cs.Warm, ", ") + " on the same object: " + f.What
+			fs = append(fs, f)
+		}
+	}
+	return fs
+}
+
+func aoEvalAfter(cs aoCase, warm []string) []core.Finding {
 	return core.Guard("allOf", func() []core.Finding {
 		kv := map[string]string{"k1": "1", "k2": `"two"`, "k3": "true"}
 		root := jschema.New("root", aoText(cs.Root, kv))
@@ -133,6 +157,9 @@ func aoEval(cs aoCase) []core.Finding {
 			if err := root.AddType("@"+t.Name, jschema.New("@"+t.Name, aoText(t.D, kv))); err != nil {
 				return []core.Finding{{Class: "allof:addtype", What: fmt.Sprintf("AddType(@%s): %v\n%s", t.Name, firstLineOf(err), aoDump(cs))}}
 			}
+		}
+		if p := warmUp(root, warm); p != "" {
+			return []core.Finding{{Class: "allof:panic", What: "panic " + p + "\n" + aoDump(cs)}}
 		}
 		err := root.Check()
 		if len(cs.Refusals) > 0 {
@@ -176,6 +203,21 @@ func aoEval(cs aoCase) []core.Finding {
 			fs = append(fs, core.Finding{Class: "allof:example-not-object", What: fmt.Sprintf("Example() = %q\n%s", ex, aoDump(cs))})
 		} else if strings.Join(v.keys, ",") != strings.Join(want, ",") {
 			fs = append(fs, core.Finding{Class: aoClass(cs, "example-keys"), What: fmt.Sprintf("Example() has keys %v, own + inherited is %v\n%s", v.keys, want, aoDump(cs))})
+		} else {
+			// nested heirs: the value of the key is an object with its own key first, then the listed type's merged keys
+			for i, k := range cs.Keys {
+				if len(k.NK) == 0 {
+					continue
+				}
+				if i >= len(v.kids) || v.kids[i].kind != "object" || strings.Join(v.kids[i].keys, ",") != strings.Join(k.NK, ",") {
+					got := []string{}
+					if i < len(v.kids) {
+						got = v.kids[i].keys
+					}
+					fs = append(fs, core.Finding{Class: aoClass(cs, "example-nested-keys"), What: fmt.Sprintf("Example() property %q has keys %v, own + inherited is %v\n%s", k.K, got, k.NK, aoDump(cs))})
+					break
+				}
+			}
 		}
 		// compiled tree: keys, optional flags, InheritedFrom
 		if on, ok := root.Inner.RootNode().(*ischema.ObjectNode); ok {
@@ -237,13 +279,18 @@ func aoEval(cs aoCase) []core.Finding {
 
 func runC07(c *core.Ctx) error {
 	type cf struct{ name, body string }
-	mk := func(n int, keys string, ml int, aps string) string {
-		return fmt.Sprintf("SPECIFICATION Spec\nCONSTANTS\n  N = %d\n  KeySet = %s\n  MaxList = %d\n  APs = %s\nINVARIANTS MergeHasNoDuplicateKeys MergeStable NoListNoChange Emit\nCHECK_DEADLOCK FALSE\n", n, keys, ml, aps)
+	mk := func(n int, keys string, ml int, aps string, nest string) string {
+		return fmt.Sprintf("SPECIFICATION Spec\nCONSTANTS\n  N = %d\n  KeySet = %s\n  MaxList = %d\n  APs = %s\n  Nest = %s\nINVARIANTS MergeHasNoDuplicateKeys MergeStable NoListNoChange NestedHeirGains Emit\nCHECK_DEADLOCK FALSE\n", n, keys, ml, aps, nest)
 	}
-	cfgs := []cf{{"AllOf_2.cfg", mk(2, `{"k1", "k2"}`, 2, `{"absent", "false", "true"}`)}}
+	cfgs := []cf{{"AllOf_2.cfg", mk(2, `{"k1", "k2"}`, 2, `{"absent", "false", "true"}`, "FALSE")},
+		{"AllOf_2nest.cfg", mk(2, `{"k1", "k2"}`, 1, `{"absent"}`, "TRUE")}}
 	if c.Thorough() {
-		cfgs = append(cfgs, cf{"AllOf_2ap.cfg", mk(2, `{"k1", "k2"}`, 2, `{"absent", "false", "string", "any", "true"}`)},
-			cf{"AllOf_3.cfg", mk(3, `{"k1", "k2", "k3"}`, 1, `{"absent", "false"}`)})
+		cfgs = append(cfgs, cf{"AllOf_2ap.cfg", mk(2, `{"k1", "k2"}`, 2, `{"absent", "false", "string", "any", "true"}`, "FALSE")},
+			cf{"AllOf_3.cfg", mk(3, `{"k1", "k2", "k3"}`, 1, `{"absent", "false"}`, "FALSE")},
+			cf{"AllOf_2nest2.cfg", mk(2, `{"k1", "k2"}`, 2, `{"absent", "false"}`, "TRUE")})
+	}
+	if _, err := loadCallOrders(); err != nil {
+		return err
 	}
 	for _, cfg := range cfgs {
 		var cases []aoCase
@@ -272,8 +319,11 @@ func runC07(c *core.Ctx) error {
 		if len(cases) == 0 {
 			return fmt.Errorf("%s: no cases", cfg.name)
 		}
+		for i := range cases {
+			cases[i].Warm = callPrefix(i, c.Seed)
+		}
 		core.ParallelFor(len(cases), func(i int) {
-			c.CountEval(1)
+			c.CountEval(2)
 			c.Report(cases[i], aoEval(cases[i]))
 		})
 		for _, cs := range cases {
